@@ -173,7 +173,7 @@ Proof.
   destruct (beqb (firstn 1 (skipn 9 s)) S_colon) eqn:B3; [|discriminate].
   destruct (Nat.eqb (length (firstn 40 (skipn 10 s))) 40) eqn:B4; [|discriminate].
   destruct (forallb is_lower_hex (firstn 40 (skipn 10 s))) eqn:B5; [|discriminate].
-  cbn [andb] in H. inversion H; subst rest.
+  cbn [andb] in H. assert (R : rest = skipn 50 s) by congruence. clear H. subst rest.
   apply beqb_eq in B1, B3. apply mem_bytes_In in B2. apply Nat.eqb_eq in B4.
   exists (firstn 3 (skipn 6 s)), (firstn 40 (skipn 10 s)). repeat split; try assumption.
   rewrite <- B1. change [58] with S_colon. rewrite <- B3.
